@@ -384,6 +384,10 @@ class ClientWebSocketResponse(Generic[_DecodeText]):
                         await self._writer.flush()
                         self._response.close()
                         return True
+                    if msg.type is WSMsgType.PING:
+                        # No CLOSE received yet: a PING is still answered
+                        # (RFC 6455 5.5.2), the peer's heartbeat depends on it.
+                        await self.pong(msg.data)
         except asyncio.CancelledError:
             self._close_code = WSCloseCode.ABNORMAL_CLOSURE
             self._abort()
